@@ -3,7 +3,7 @@ from vlib import *
 from vlib import _validate_one
 import families
 
-NON_SEMANTIC = {"C05", "C06", "C08", "C09", "C10"}
+NON_SEMANTIC = {"C05", "C06", "C08", "C09", "C10", "HIST"}
 
 def concerns(ev, verdict):
     """Which properties a failing trace line is a violation of (DESIGN.md 5.6)."""
@@ -171,7 +171,7 @@ def run_histories(prop, fam, tier, seed, work, jh, specdir, stats):
                 j -= 1
             hist = [evs[x] for x in range(j, i + 1)]
             e = dict(evs[i])
-            e["fam"] = prop
+            e["fam"] = "HIST"
             src = None
             for h in hist:
                 if h["ev"] == "Compile" and h.get("e") == e.get("e"):
